@@ -1,9 +1,13 @@
 import TakVerif.Impl.Move
+import TakVerif.Impl.Position
 import TakVerif.Generated.Funcs
+import TakVerif.Generated.FuncsTak
 
 /-! Tie #1 for the slide word (`tak/slide.go`): the hand-written helpers used by the model of `MovePreallocated`
 and `AllMoves` are, value for value, the functions `/verif/gen` regenerates from the source on every run.
-(`Gen.precompute`, `Gen.grow`, `Gen.hash8`, `Gen.hash64` are used by the model directly.) -/
+(`Gen.precompute`, `Gen.grow`, `Gen.hash8`, `Gen.hash64` are used by the model directly.)
+Second half: `MakePiece`, `Piece.Color/Kind/IsRoad`, `Color.Flip` of `tak/pieces.go`.  (`Slides.Len` and the small
+`Move` methods are bridged in `Proofs/GenMove.lean` and restated with the properties that use them: C05, C14, C20.) -/
 namespace C01
 open Tak
 
@@ -33,5 +37,38 @@ theorem first_is_source (s : BitVec 32) (h : s ≠ 0#32) :
   simp [hb, Gen.slideIterElem, Gen.slidesFirst]
 
 example : Slides.elems 0x121#32 = [1, 2, 1] ∧ Gen.slidesFirst 0x121#32 = 1 ∧ Gen.slidesEmpty 0#32 = true := by decide
+
+/-! ### `tak/pieces.go`: `MakePiece`, `Piece.Color`, `Piece.Kind`, `Piece.IsRoad`, `Color.Flip` -/
+
+def colorByte (c : Color) : BitVec 8 := BitVec.ofNat 8 c.code
+def kindByte (k : Kind) : BitVec 8 := BitVec.ofNat 8 k.code
+def pieceByte (p : Piece) : BitVec 8 := BitVec.ofNat 8 p.code
+
+/-- the model's piece code is `MakePiece(color, kind)` of the source -/
+theorem makePiece_is_source (p : Piece) : pieceByte p = Gen.makePiece (colorByte p.color) (kindByte p.kind) := by
+  obtain ⟨c, k⟩ := p; cases c <;> cases k <;> decide
+
+/-- `Piece.Color`, `Piece.Kind`, `Piece.IsRoad` of the source invert it, as the model's decoding assumes -/
+theorem pieceParts_is_source (p : Piece) :
+    Gen.pieceColor (pieceByte p) = colorByte p.color ∧ Gen.pieceKind (pieceByte p) = kindByte p.kind ∧
+    Gen.pieceIsRoad (pieceByte p) = p.isRoad := by
+  obtain ⟨c, k⟩ := p; cases c <;> cases k <;> decide
+
+/-- `Piece.ofCode` (the model's reading of a byte) accepts only bytes whose `Color()`/`Kind()` parts are the piece's -/
+def ofCodeOk (n : Nat) : Bool :=
+  match Piece.ofCode n with
+  | some p => Gen.pieceColor (BitVec.ofNat 8 n) == colorByte p.color && Gen.pieceKind (BitVec.ofNat 8 n) == kindByte p.kind
+  | none => true
+
+set_option maxRecDepth 8192 in
+theorem ofCode_is_source (n : Nat) (h : n < 256) : ofCodeOk n = true := by
+  have : ∀ k : Fin 256, ofCodeOk k.val = true := by decide
+  exact this ⟨n, h⟩
+
+/-- `Color.Flip` never panics on the three colours and is the model's `flip` -/
+theorem colorFlip_is_source (c : Color) : Gen.colorFlip (colorByte c) = some (colorByte c.flip) := by
+  cases c <;> decide
+
+example : Gen.colorFlip 1#8 = none ∧ Gen.makePiece 128#8 3#8 = 131#8 := by decide
 
 end C01
